@@ -924,6 +924,11 @@ func busyOutsideSDK(dump string) bool {
 		if strings.Contains(b, "go.flow.arcalot.io/pluginsdk/") {
 			return false
 		}
+		if !strings.Contains(b, "verif/internal/") {
+			// no stack to read (a goroutine running on another thread is listed without one), or only runtime
+			// frames: nothing shows that this is the harness, so the overrun stays a hang
+			return false
+		}
 	}
 	return true
 }
